@@ -68,6 +68,35 @@ var docValues = []string{
 	`[{"a":1}]`, `[{"a":"x"}]`, `[{}]`, `[{"a":1},{"a":2}]`, `{"k":{"a":1}}`, `{"k":{"a":"x"}}`, `{"k":1}`,
 }
 
+// generatedDocs: every JSON value of nesting depth <= 2 over a small atom set (thorough tier)
+func generatedDocs() []string {
+	atoms := []string{"null", "true", "0", "3", "300", "-1", "1.5", `"a"`, `"3"`, `""`}
+	var d1 []string
+	d1 = append(d1, "[]", "{}")
+	for _, a := range atoms {
+		d1 = append(d1, "["+a+"]", `{"a":`+a+`}`, `{"k":`+a+`}`)
+		for _, b := range atoms {
+			d1 = append(d1, "["+a+","+b+"]")
+		}
+	}
+	var d2 []string
+	for _, x := range d1 {
+		d2 = append(d2, "["+x+"]", `{"a":`+x+`}`, `{"k":`+x+`}`, "["+x+","+x+"]")
+	}
+	seen := map[string]bool{}
+	for _, v := range docValues {
+		seen[v] = true
+	}
+	var out []string
+	for _, v := range append(append(atoms, d1...), d2...) {
+		if !seen[v] {
+			seen[v] = true
+			out = append(out, v)
+		}
+	}
+	return out
+}
+
 type tagSpec struct {
 	name string
 	tag  func(k kindSpec) (string, bool) // tag suffix, applicable
@@ -157,7 +186,11 @@ func TestVerifUnmarshalMatrix(t *testing.T) {
 				continue
 			}
 			st := reflect.StructOf([]reflect.StructField{{Name: "F", Type: k.t, Tag: reflect.StructTag(`json:"f` + tagSuffix + `"`)}})
-			for _, dv := range docValues {
+			docs := docValues
+			if vrt.Thorough() {
+				docs = append(append([]string{}, docValues...), generatedDocs()...)
+			}
+			for _, dv := range docs {
 				if ts.name == "string" && !strings.HasPrefix(dv, `"`) && dv != "<absent>" {
 					continue // ,string fields take their number inside a JSON string
 				}
